@@ -215,6 +215,9 @@ func (u *Unit) specExpr(st *State, e *SExpr, env *SpecEnv, q *bool) *Val {
 						if c, ok := o.(*types.Const); ok {
 							return u.constVal(st, c.Val(), c.Type())
 						}
+						if vr, ok := o.(*types.Var); ok && isSentinel(vr) {
+							return u.sentinel(st, vr)
+						}
 						if vr, ok := o.(*types.Var); ok {
 							name := "V!" + p.Path() + "." + vr.Name()
 							h := u.heapGet(st, name, sortOf(vr.Type()))
@@ -332,6 +335,9 @@ func (u *Unit) specIdent(st *State, name string, env *SpecEnv) *Val {
 			case *types.Const:
 				return u.constVal(st, c.Val(), c.Type())
 			case *types.Var:
+				if isSentinel(c) {
+					return u.sentinel(st, c)
+				}
 				h := u.heapGet(st, "V!"+c.Pkg().Path()+"."+c.Name(), sortOf(c.Type()))
 				return u.fromScalar(st, app("select", h, "0"), c.Type())
 			}
